@@ -25,6 +25,7 @@ var overlayDirs = map[string]string{
 	"keeper": "module/x/mhub2/keeper",
 	"mhub2":  "module/x/mhub2",
 	"oracle": "module/x/oracle/keeper",
+	"oraclemod": "module/x/oracle",
 	"otypes": "module/x/oracle/types",
 }
 
@@ -114,6 +115,15 @@ func main() {
 		cmdRun(os.Args[2:])
 	case "check":
 		os.Exit(cmdCheck(os.Args[2:]))
+	case "sites":
+		l, err := loadProgram("/repo/module", []string{"./x/mhub2/keeper", "./x/mhub2", "./x/oracle/keeper", "./x/oracle"})
+		if err != nil {
+			fmt.Println("ERROR", err)
+			os.Exit(2)
+		}
+		for _, s := range nondetSites(l) {
+			fmt.Println(s)
+		}
 	default:
 		fmt.Println("unknown command")
 		os.Exit(2)
